@@ -438,17 +438,18 @@ func (wp *WorkPackage) Validate() error {
 	}
 
 	// gas limit check (14.7)
+	// The limits are 64-bit values: every item is tested against the limit before it is added, so the
+	// running sums stay below twice the limit and cannot wrap around 2^64.
 	var totalRefineGas, totalAccumulateGas Gas
 	for _, item := range wp.Items {
+		if item.RefineGasLimit > Gas(MaxRefineGas) || totalRefineGas+item.RefineGasLimit > Gas(MaxRefineGas) {
+			return fmt.Errorf("refine gas limit %d + %d is greater than MaxRefineGas %d", totalRefineGas, item.RefineGasLimit, MaxRefineGas)
+		}
+		if item.AccumulateGasLimit > MaxAccumulateGas || totalAccumulateGas+item.AccumulateGasLimit > MaxAccumulateGas {
+			return fmt.Errorf("accumulate gas limit %d + %d is greater than MaxAccumulateGas %d", totalAccumulateGas, item.AccumulateGasLimit, MaxAccumulateGas)
+		}
 		totalRefineGas += item.RefineGasLimit
 		totalAccumulateGas += item.AccumulateGasLimit
-	}
-
-	if totalRefineGas > Gas(MaxRefineGas) {
-		return fmt.Errorf("refine gas limit %d is greater than MaxRefineGas %d", totalRefineGas, MaxRefineGas)
-	}
-	if totalAccumulateGas > MaxAccumulateGas {
-		return fmt.Errorf("accumulate gas limit %d is greater than MaxAccumulateGas %d", totalAccumulateGas, MaxAccumulateGas)
 	}
 
 	return nil
